@@ -439,3 +439,95 @@ def k8_handler(facts, rep, clause, fn, extra_complete=None, min_release=True, la
                ok, 'an operation can be dropped without a status: the thread that submitted it spins forever (%s)' %
                ('handler returns' if ex else 'next operation taken'), ln=ln, key_extra=str(ln))
     return len(starts)
+
+
+# ---------------------------------------------------------------------------------------------------------------
+# overload family agreement (K7): every public overload of one algorithm dispatches to the same task class
+# ---------------------------------------------------------------------------------------------------------------
+def dispatch_targets(facts, fn, family, depth=0, seen=None):
+    """primary names of the task classes (static `run` entry) / library routines an API overload finally dispatches to,
+    following forwarding calls to other overloads of the same family and to library helper functions"""
+    seen = seen if seen is not None else set()
+    if fn.u in seen or depth > 6:
+        return set()
+    seen.add(fn.u)
+    out = set()
+    for b, i, e in fn.iter_elems():
+        if not isinstance(e, int) or fn.nodes[e].get('k') != 'call':
+            continue
+        d = fn.callee(e)
+        if not d:
+            continue
+        p = d.get('p', '')
+        if not p.startswith('tbb::detail::'):
+            continue
+        if d.get('n') == 'run' and d.get('static') and d.get('cls'):
+            out.add(d['cls'])
+            continue
+        if d.get('cls'):
+            continue            # constructors, member calls (task_group_context ...): not a dispatch
+        g = facts.fns.get(fn.nodes[e].get('fn'))
+        if g is None:
+            if '::r1::' in p:
+                out.add(p)       # exported entry point of the binary library
+            continue
+        sub = dispatch_targets(facts, g, family, depth + 1, seen)
+        if sub:
+            out |= sub
+        elif p != family:
+            out.add(p)
+    return out
+
+
+def api_family_agreement(facts, rep, clause, family, what):
+    """all overloads of `family` (grouped by definition site) must dispatch to the same set of task classes.  The
+    expectation is the majority among the overloads themselves (sibling agreement), nothing is hard-coded."""
+    from collections import Counter
+    groups = {}
+    for fn in facts.by_p.get(family, []):
+        groups.setdefault((fn.file, fn.l0), []).append(fn)
+    uncovered = [k for k, d in facts.templates.items() if k[0] == family and not d['nspec']]
+    if len(groups) < 2:
+        raise AnalysisBroken('%s: fewer than two instantiated overloads (%d)' % (family, len(groups)))
+    sig = {}
+    helpers = set()
+    for k, fns in groups.items():
+        t = set()
+        for fn in fns:
+            seen = set()
+            t |= dispatch_targets(facts, fn, family, seen=seen)
+            helpers.update(u for u in seen if facts.fns[u].p != family)
+        # task classes decide; auxiliary library calls (argument checks that throw ...) count only when there is no class
+        cls_t = set(x for x in t if x in facts.classes)
+        sig[k] = frozenset(cls_t or t)
+    major, cnt = Counter(sig.values()).most_common(1)[0]
+    if not major:
+        raise AnalysisBroken('%s: no dispatch target found in the majority of overloads' % family)
+    for k in sorted(groups):
+        fn = groups[k][0]
+        ok = sig[k] == major
+        rep.ob(clause, 'K7', fn, '%s overload at line %s dispatches like its siblings (%s)' % (family.split('::')[-1], k[1], what), ok,
+               'this overload runs %s, the other %d overloads run %s' % (sorted(x.split('::')[-1] for x in sig[k]) or 'nothing', cnt,
+                                                                         sorted(x.split('::')[-1] for x in major)),
+               ln=k[1], key_extra='%s:%s' % (family, k[1]))
+        # K10: a forwarding overload uses every one of its parameters (a dropped context / partitioner argument silently
+        # selects the default one: the loop is no longer bound to the caller's group, or runs with another partitioner)
+        used = set(n.get('v') for n in fn.nodes if n.get('k') == 'var' and 'param' in n)
+        unused = [pp['n'] for pp in fn.d.get('params', []) if pp['v'] not in used and pp['n']]
+        rep.ob(clause, 'K10', fn, '%s overload at line %s passes every argument on' % (family.split('::')[-1], k[1]), not unused,
+               'parameter(s) %s are never used: the caller\'s %s is silently replaced by a default' % (unused, ' / '.join(unused)),
+               ln=k[1], key_extra='%s:%s:args' % (family, k[1]))
+    hdone = set()
+    for u in sorted(helpers):
+        g = facts.fns[u]
+        if (g.p, g.file, g.l0) in hdone or g.cls:
+            continue
+        hdone.add((g.p, g.file, g.l0))
+        if not dispatch_targets(facts, g, family):
+            continue         # not on the way to the task class (profiling stubs, argument checks)
+        used = set(n.get('v') for n in g.nodes if n.get('k') == 'var' and 'param' in n)
+        unused = [pp['n'] for pp in g.d.get('params', []) if pp['v'] not in used and pp['n']]
+        rep.ob(clause, 'K10', g, 'helper %s at line %s passes every argument on' % (g.p.split('::')[-1], g.l0), not unused,
+               'parameter(s) %s are never used: the caller\'s argument is silently replaced by a default' % unused,
+               ln=g.l0, key_extra='%s:%s:args' % (g.p, g.l0))
+    return len(groups), len(uncovered)
